@@ -10,12 +10,12 @@
             match bcd_fold(b, b.len(), 0xff) { Some(v) => Some((v as u8, b.len() as int)), None => None }
         }
         open spec fn progresses() -> bool { false }
-        //@ fn exp:zvt_builder | impl Encoding<u8> for Bcd | encode | mod=encoding all-loops
+        //@ fn exp:zvt_builder | impl Encoding<u8> for Bcd | encode | mod=encoding all-loops props=C17,C03
         //@ loop 0
                 invariant rv@ + bcd_rev(k as nat) =~= bcd_rev(*input as nat),
                 decreases k,
         //@ end
-        //@ fn exp:zvt_builder | impl Encoding<u8> for Bcd | decode | mod=encoding all-loops n3=d props=C02
+        //@ fn exp:zvt_builder | impl Encoding<u8> for Bcd | decode | mod=encoding all-loops n3=d props=C02,C17
         //@ loop 0
                 invariant bcd_fold(data@, iter.index@ as nat, 0xff) == Some(rv as nat),
         //@ end
@@ -42,12 +42,12 @@
             match bcd_fold(b, b.len(), 0xffff) { Some(v) => Some((v as u16, b.len() as int)), None => None }
         }
         open spec fn progresses() -> bool { false }
-        //@ fn exp:zvt_builder | impl Encoding<u16> for Bcd | encode | mod=encoding all-loops
+        //@ fn exp:zvt_builder | impl Encoding<u16> for Bcd | encode | mod=encoding all-loops props=C17,C03
         //@ loop 0
                 invariant rv@ + bcd_rev(k as nat) =~= bcd_rev(*input as nat),
                 decreases k,
         //@ end
-        //@ fn exp:zvt_builder | impl Encoding<u16> for Bcd | decode | mod=encoding all-loops n3=d props=C02
+        //@ fn exp:zvt_builder | impl Encoding<u16> for Bcd | decode | mod=encoding all-loops n3=d props=C02,C17
         //@ loop 0
                 invariant bcd_fold(data@, iter.index@ as nat, 0xffff) == Some(rv as nat),
         //@ end
@@ -74,12 +74,12 @@
             match bcd_fold(b, b.len(), 0xffff_ffff) { Some(v) => Some((v as u32, b.len() as int)), None => None }
         }
         open spec fn progresses() -> bool { false }
-        //@ fn exp:zvt_builder | impl Encoding<u32> for Bcd | encode | mod=encoding all-loops
+        //@ fn exp:zvt_builder | impl Encoding<u32> for Bcd | encode | mod=encoding all-loops props=C17,C03
         //@ loop 0
                 invariant rv@ + bcd_rev(k as nat) =~= bcd_rev(*input as nat),
                 decreases k,
         //@ end
-        //@ fn exp:zvt_builder | impl Encoding<u32> for Bcd | decode | mod=encoding all-loops n3=d props=C02
+        //@ fn exp:zvt_builder | impl Encoding<u32> for Bcd | decode | mod=encoding all-loops n3=d props=C02,C17
         //@ loop 0
                 invariant bcd_fold(data@, iter.index@ as nat, 0xffff_ffff) == Some(rv as nat),
         //@ end
@@ -106,12 +106,12 @@
             match bcd_fold(b, b.len(), 0xffff_ffff_ffff_ffff) { Some(v) => Some((v as u64, b.len() as int)), None => None }
         }
         open spec fn progresses() -> bool { false }
-        //@ fn exp:zvt_builder | impl Encoding<u64> for Bcd | encode | mod=encoding all-loops
+        //@ fn exp:zvt_builder | impl Encoding<u64> for Bcd | encode | mod=encoding all-loops props=C17,C03
         //@ loop 0
                 invariant rv@ + bcd_rev(k as nat) =~= bcd_rev(*input as nat),
                 decreases k,
         //@ end
-        //@ fn exp:zvt_builder | impl Encoding<u64> for Bcd | decode | mod=encoding all-loops n3=d props=C02
+        //@ fn exp:zvt_builder | impl Encoding<u64> for Bcd | decode | mod=encoding all-loops n3=d props=C02,C17
         //@ loop 0
                 invariant bcd_fold(data@, iter.index@ as nat, 0xffff_ffff_ffff_ffff) == Some(rv as nat),
         //@ end
@@ -138,12 +138,12 @@
             match bcd_fold(b, b.len(), 0xffff_ffff_ffff_ffff) { Some(v) => Some((v as usize, b.len() as int)), None => None }
         }
         open spec fn progresses() -> bool { false }
-        //@ fn exp:zvt_builder | impl Encoding<usize> for Bcd | encode | mod=encoding all-loops
+        //@ fn exp:zvt_builder | impl Encoding<usize> for Bcd | encode | mod=encoding all-loops props=C17,C03
         //@ loop 0
                 invariant rv@ + bcd_rev(k as nat) =~= bcd_rev(*input as nat),
                 decreases k,
         //@ end
-        //@ fn exp:zvt_builder | impl Encoding<usize> for Bcd | decode | mod=encoding all-loops n3=d props=C02
+        //@ fn exp:zvt_builder | impl Encoding<usize> for Bcd | decode | mod=encoding all-loops n3=d props=C02,C17
         //@ loop 0
                 invariant bcd_fold(data@, iter.index@ as nat, 0xffff_ffff_ffff_ffff) == Some(rv as nat),
         //@ end
